@@ -173,5 +173,5 @@ ENTRIES = [
       "                self._commander.read_stream(file, self._data_stream),\n                timeout=duration_timeout)\n"),
     N('pasv-port-multiply', U, "int(match.group(5)) << 8 | int(match.group(6))", "int(match.group(5)) * 256 + int(match.group(6))"),
     N('pasv-blank-after-paren', U, "        r'\\('\n        r'(\\d{1,3})\\s*,'\n", "        r'\\(\\s*'\n        r'([0-9]{1,3})\\s*,'\n"),
-    N('pasv-no-match-first', U, "    if match:\n        return (", "    if match is None:\n        raise ValueError('No address found')\n    if match:\n        return ("),
+    N('pasv-no-match-first', U, "    if match:\n        if any(", "    if match is None:\n        raise ValueError('No address found')\n    if match:\n        if any("),
 ]
